@@ -42,6 +42,9 @@ func (P) Exec(line string) string {
 	if f[1] == "par" {
 		return execPar(line)
 	}
+	if f[1] == "cfidx" && len(f) == 5 {
+		return execCfidx(f[1:])
+	}
 	switch {
 	case strings.HasPrefix(f[1], "bloom"):
 		return execBloom(f[1:])
@@ -55,6 +58,7 @@ func (P) Generate(g *core.Gen) {
 	genGcs(g)
 	genBloom(g)
 	genPmt(g)
+	genCfidx(g)
 	genPar(g)
 }
 
@@ -72,6 +76,9 @@ var parPool []string
 
 func rec(g *core.Gen, class string, nontrivial bool, line string) {
 	g.Case(class, nontrivial, line)
+	if strings.HasPrefix(line, "C20 cfidx") && len(parPool)%5 != 0 {
+		return // a database per repetition is slow: keep only a few of these in the pool
+	}
 	if len(line) < 6000 && !strings.Contains(line, " ;; ") {
 		parPool = append(parPool, line)
 	}
